@@ -268,7 +268,7 @@ def extract_fn(repo, spec):
     line_in_repo = text.count("\n", 0, start) + 1
     return {"name": spec["name"], "header": inherent_header(header), "orig_header": re.sub(r"\s+", " ", header),
             "sig": sig2, "spec": spec.get("spec", ""), "body": body2, "orig_body": body,
-            "trusted": spec.get("trusted", False), "props": spec.get("props", []),
+            "trusted": spec.get("trusted", False), "omit_body": spec.get("omit_body", False), "props": spec.get("props", []),
             "file": spec["file"], "line": line_in_repo, "sha": vf.sha(body), "loops": len(loops), "closures": nclos,
             "hints": len(hints)}
 
@@ -336,7 +336,11 @@ def assemble(repo):
         blk.append("    " + f["sig"])
         blk.append(f["spec"].strip("\n"))
         f["body_line"] = first + sum(x.count("\n") + 1 for x in blk)
-        blk.append("    " + f["body"])
+        if f["trusted"] and f.get("omit_body"):
+            # assumed contract only: the body (not verified anyway) refers to items that are not extracted
+            blk.append("    { unimplemented!() }")
+        else:
+            blk.append("    " + f["body"])
         blk.append("}")
         blk.append("")
         txt = "\n".join(blk)
